@@ -331,37 +331,79 @@ func runOne(ctx context.Context, sd solverDef, file string, timeoutS, seed int) 
 	return r
 }
 
-// solve races the portfolio on one SMT file. First definite answer (unsat or sat) wins.
-// In agree mode all solvers run to completion and a definite disagreement is reported as error.
+type solveJob struct {
+	file     string
+	sd       solverDef
+	trustSat bool   // a "sat" answer is a counterexample (false for weakened variants)
+	variant  string
+	delayMS  int
+}
+
+// solve races the portfolio on one SMT file (and optionally its ground-instantiated variant).
+// First definite answer (unsat, or sat from a variant whose hypotheses were not weakened) wins.
+// In agree mode the solvers get extra time after the first answer and a disagreement is an error.
 func solve(file string, timeoutS int, seed int, agree bool) SolverResult {
+	return solveVariants(file, "", timeoutS, seed, agree)
+}
+
+func solveVariants(file, groundFile string, timeoutS int, seed int, agree bool) SolverResult {
+	var jobs []solveJob
+	if groundFile != "" {
+		jobs = append(jobs, solveJob{groundFile, solvers[0], false, "ground", 0})
+		jobs = append(jobs, solveJob{file, solvers[0], true, "full", 0})
+		jobs = append(jobs, solveJob{groundFile, solvers[1], false, "ground", 300})
+		jobs = append(jobs, solveJob{file, solvers[2], true, "full", 600})
+		jobs = append(jobs, solveJob{groundFile, solvers[2], false, "ground", 900})
+	} else {
+		for i, sd := range solvers {
+			jobs = append(jobs, solveJob{file, sd, true, "full", 400 * i})
+		}
+	}
 	ctx, cancel := context.WithCancel(context.Background())
 	defer cancel()
-	ch := make(chan SolverResult, len(solvers))
+	ch := make(chan SolverResult, len(jobs))
 	var wg sync.WaitGroup
-	for i, sd := range solvers {
+	for _, j := range jobs {
 		wg.Add(1)
-		go func(i int, sd solverDef) {
+		go func(j solveJob) {
 			defer wg.Done()
-			if i > 0 && !agree {
-				// stagger: give z3-new a head start, most goals take < 0.3 s
+			name := j.sd.name
+			if j.variant == "ground" {
+				name += "/ground"
+			}
+			if j.delayMS > 0 && !agree {
 				select {
-				case <-time.After(time.Duration(400*i) * time.Millisecond):
+				case <-time.After(time.Duration(j.delayMS) * time.Millisecond):
 				case <-ctx.Done():
-					ch <- SolverResult{Solver: sd.name, Status: "cancelled"}
+					ch <- SolverResult{Solver: name, Status: "cancelled"}
 					return
 				}
 			}
-			ch <- runOne(ctx, sd, file, timeoutS, seed)
-		}(i, sd)
+			r := runOne(ctx, j.sd, j.file, timeoutS, seed)
+			r.Solver = name
+			if r.Status == "sat" && !j.trustSat {
+				r.Status = "unknown" // weakened hypotheses: a model proves nothing
+			}
+			ch <- r
+		}(j)
 	}
 	answers := map[string]string{}
 	var best *SolverResult
 	var last SolverResult
 	total := 0.0
-	for range solvers {
-		r := <-ch
+	var grace <-chan time.Time
+	for range jobs {
+		var r SolverResult
+		select {
+		case r = <-ch:
+		case <-grace:
+			cancel()
+			r = <-ch
+		}
 		answers[r.Solver] = r.Status
-		last = r
+		if r.Status != "cancelled" {
+			last = r
+		}
 		if r.Status == "unsat" || r.Status == "sat" {
 			if best == nil {
 				rr := r
@@ -370,6 +412,7 @@ func solve(file string, timeoutS int, seed int, agree bool) SolverResult {
 					cancel()
 					break
 				}
+				grace = time.After(4 * time.Second)
 			} else if best.Status != r.Status {
 				best.Status = "error"
 				best.Output += "\nSOLVER DISAGREEMENT: " + r.Solver + " says " + r.Status
@@ -382,7 +425,6 @@ func solve(file string, timeoutS int, seed int, agree bool) SolverResult {
 		best.Answers = answers
 		return *best
 	}
-	// no definite answer
 	st := "unknown"
 	allTimeout := true
 	for _, a := range answers {
